@@ -441,12 +441,16 @@ class Parser:
         if not ExpressionParser(self).expression():
             return False
         code_gen.add_instruction(OpCode.OP, Operator.NOT)
+        if dest is not OpCode.PUSH:
+            code_gen.pop(dest)
         return True
 
     def _rvalue_expr(self, dest, code_gen):
         if not ExpressionParser(self).expression():
             return False
-        code_gen.pop(dest)
+        # As an operand of an enclosing expression the value stays on the stack.
+        if dest is not OpCode.PUSH:
+            code_gen.pop(dest)
         return True
 
     def _at_rvalue(self, include_reg=True) -> bool:
